@@ -69,3 +69,49 @@ func EdgeFacts(b *ssa.BasicBlock, i int) Facts {
 	}
 	return f
 }
+
+// LoopInfo describes one natural loop of a function.
+type LoopInfo struct {
+	Loop      *Loop
+	Over      string // expression ranged over (slice/map/string), "" when not a range loop
+	EarlyExit bool   // an edge leaves the loop from a block other than the header
+	Pos       ssa.Instruction
+}
+
+// Loops enumerates the natural loops of fn (one per header).
+func Loops(fn *ssa.Function) []LoopInfo {
+	var out []LoopInfo
+	for _, b := range fn.Blocks {
+		l := NaturalLoop(b)
+		if l == nil {
+			continue
+		}
+		li := LoopInfo{Loop: l}
+		for _, e := range l.ExitEdges() {
+			if e[0].(*ssa.BasicBlock) != l.Header {
+				li.EarlyExit = true
+			}
+		}
+		// what is ranged over: len(S) compared in the header, or next(range(M))
+		for _, in := range b.Instrs {
+			if li.Pos == nil && in.Pos().IsValid() {
+				li.Pos = in
+			}
+			switch x := in.(type) {
+			case *ssa.BinOp:
+				if call, ok := x.Y.(*ssa.Call); ok && IsBuiltinCall(call, "len") {
+					li.Over = Expr(call.Call.Args[0])
+				}
+			case *ssa.Next:
+				if r, ok := x.Iter.(*ssa.Range); ok {
+					li.Over = Expr(r.X)
+				}
+			}
+		}
+		if li.Pos == nil {
+			li.Pos = b.Instrs[0]
+		}
+		out = append(out, li)
+	}
+	return out
+}
